@@ -1144,10 +1144,16 @@ func EvalExpression(exprSrc string, rootValue interface{}, stdout io.Writer) (*C
 	ev.root = rootCell
 	ev.ruleRoot = rootCell
 	cell, err := ev.evalExpr(expr)
-	if err != nil && err != errExit {
+	switch err {
+	case nil:
+		return cell, nil
+	case errExit, errNext, errBreak, errContinue, errReturn:
+		// a control-flow statement inside a match block: there is no rule or
+		// loop to leave here, and the signal must not reach the caller
+		return nil, ev.error(expr.Token(), fmt.Sprintf("%s is not allowed in an expression evaluated on its own", err.Error()))
+	default:
 		return nil, err
 	}
-	return cell, nil
 }
 
 type InputFile struct {
